@@ -173,6 +173,32 @@ pub fn execute_via(subject: &dyn Subject, cfg: SourceCfg<'_>, chunk_size: Option
     Execution { items, end, src: st, handed_out_at_item: handed }
 }
 
+/// The document sits behind `skip` envelope bytes: the harness reads and advances over them, then
+/// hands the reader (position `skip`) to the subject, which builds its LineReader / parser on it.
+pub fn execute_embedded(subject: &dyn Subject, cfg: SourceCfg<'_>, chunk_size: Option<usize>, forced: Vec<(u32, u32)>, skip: usize) -> Execution {
+    let (source, st) = ScriptedSource::new(cfg, forced);
+    let mut items = Vec::new();
+    let mut handed = Vec::new();
+    let st2 = st.clone();
+    let res = catch(|| {
+        let mut reader = DeferredReader::from_read(source);
+        if let Some(c) = chunk_size {
+            reader.set_chunk_size(c);
+        }
+        let got = reader.request(skip).len().min(skip);
+        reader.advance(got);
+        subject.run(reader, &mut |item| {
+            handed.push(st2.borrow().pos);
+            items.push(item);
+        })
+    });
+    let end = match res {
+        Ok(end) => end,
+        Err((msg, loc)) => End::Panic { msg, loc: short_loc(&loc) },
+    };
+    Execution { items, end, src: st, handed_out_at_item: handed }
+}
+
 /// Convert a flussab style error (`SyntaxError` / io error) into an `End`.
 pub fn end_of_syntax(location: flussab::text::LineColumn, msg: &str) -> End {
     End::Syntax { line: location.line, column: location.column, msg: msg.to_string() }
